@@ -19,6 +19,10 @@ type Script struct {
 	ClientClose  bool  `json:"client_close"` // client closes after its writes (server must then read everything and see EOF)
 	ServerClose  bool  `json:"server_close"`
 	MaxRead      int   `json:"max_read"` // read buffer sizes are random in [1,MaxRead]
+	// ServerStallMs / ClientStallMs: the reader on that side does not read at all for this long
+	// (back-pressure: the peer keeps writing into full queues), then reads everything
+	ServerStallMs int `json:"server_stall_ms,omitempty"`
+	ClientStallMs int `json:"client_stall_ms,omitempty"`
 }
 
 func sum(xs []int) int {
@@ -113,18 +117,30 @@ func reader(conn net.Conn, rng *rand.Rand, seed int64, sess, dir, want, maxRead 
 
 func writer(conn net.Conn, seed int64, sess, dir int, sizes []int, tag []byte, res *DirResult) {
 	off := 0
+	// one buffer re-used for every Write and overwritten as soon as Write returns: io.Writer
+	// implementations must not retain the caller's slice
+	var buf []byte
 	for i, sz := range sizes {
-		b := make([]byte, sz)
-		FillStream(b, seed, sess, dir, off)
-		if i == 0 && tag != nil {
-			b = append(append([]byte(nil), tag...), b...)
+		need := sz
+		if i == 0 {
+			need += len(tag)
 		}
-		n, err := conn.Write(b)
+		if cap(buf) < need {
+			buf = make([]byte, need)
+		}
+		b := buf[:need]
+		pre := 0
 		if i == 0 && tag != nil {
-			n -= len(tag)
-			if n < 0 {
-				n = 0
-			}
+			pre = copy(b, tag)
+		}
+		FillStream(b[pre:], seed, sess, dir, off)
+		n, err := conn.Write(b)
+		for j := range b {
+			b[j] = 0xA5 // scribble
+		}
+		n -= pre
+		if n < 0 {
+			n = 0
 		}
 		res.Written += n
 		off += sz
@@ -251,6 +267,9 @@ func RunTransfer(w Endpoints, scripts []Script, seed int64, timeout time.Duratio
 				}()
 				go func() {
 					defer inner.Done()
+					if sc.ServerStallMs > 0 {
+						time.Sleep(time.Duration(sc.ServerStallMs) * time.Millisecond)
+					}
 					reader(conn, rand.New(rand.NewSource(seed+int64(k)*7+1)), seed, k, 0, sum(sc.ClientWrites), sc.MaxRead, sc.ClientClose, &sr.C2S)
 				}()
 				inner.Wait()
@@ -292,6 +311,9 @@ func RunTransfer(w Endpoints, scripts []Script, seed int64, timeout time.Duratio
 			}()
 			go func() {
 				defer inner.Done()
+				if sc.ClientStallMs > 0 {
+					time.Sleep(time.Duration(sc.ClientStallMs) * time.Millisecond)
+				}
 				reader(conn, rand.New(rand.NewSource(seed+int64(k)*7+2)), seed, k, 1, sum(sc.ServerWrites), sc.MaxRead, sc.ServerClose, &sr.S2C)
 			}()
 			inner.Wait()
